@@ -101,35 +101,29 @@ Definition has (k : bytes) (l : list bytes) : bool := existsb (bytes_eqb k) l.
     selects, [lsm] the record the model's LSM lookup selects, [agree] whether
     the model predicted the observed output.
       1  the key was written at a GC yield point (F12: GC writes its stale copy back over it)
-      2  an OLDER VERSION answers and a GC moved this key (GC re-inserted an old version into
-         the newest memtable; the lookup stops at the first source holding any version <= v);
-         or the read of a live entry fails in the value log and a GC moved this key earlier (the
-         next GC pass trusted the same lookup, judged the newer version's record stale and
-         removed its file)
       3  the read fails in the value log: a deleted/expired entry whose file GC removed
+      4  Txn.Get reports a zero-length value (meta 0) as absent once a table serves it
       11 an older write of the same version answers (C01-F2 / C02-F2: equal internal keys in tables
          whose order is not their age), not caused by GC
-      12 an older version answers although no GC touched the key (C02-F4)
-      4  Txn.Get reports a zero-length value (meta 0) as absent once a table serves it *)
+    (classes 2 and 12 - an older VERSION answering, after a GC write-back or after user writes in
+    non-increasing version order - were retired with the repair of LSM.Get, /repo 2f52ea0; such a
+    read is now a violation outside every class) *)
 Definition classify (now : N) (a : acc) (k : bytes) (spec lsm : option rec) (agree txn : bool) (o : obs) : N :=
   if has k (a_raced a) then 1
   else if negb agree then 999
   else match o, lsm with
-       | OErr, Some m => if dead now m then 3 else if has k (a_moved a) then 2 else 999
+       | OErr, Some m => if dead now m then 3 else 999
        | ONone, Some m =>
            if txn && (blen (r_val m) =? 0) && (r_meta m =? 0) &&
               match spec with Some w => (r_ver w =? r_ver m) && (r_seq w =? r_seq m) | None => false end
            then 4
            else match spec with
-                | Some w => if r_ver m <? r_ver w then (if has k (a_moved a) then 2 else 12)
-                            else if (r_ver m =? r_ver w) && (r_seq m <? r_seq w) then 11 else 999
+                | Some w => if (r_ver m =? r_ver w) && (r_seq m <? r_seq w) then 11 else 999
                 | None => 999
                 end
        | _, _ =>
            match spec, lsm with
-           | Some w, Some m =>
-               if r_ver m <? r_ver w then (if has k (a_moved a) then 2 else 12)
-               else if (r_ver m =? r_ver w) && (r_seq m <? r_seq w) then 11 else 999
+           | Some w, Some m => if (r_ver m =? r_ver w) && (r_seq m <? r_seq w) then 11 else 999
            | _, _ => 999
            end
        end.
@@ -225,15 +219,8 @@ Definition step (c : cfg) (now : N) (a : acc) (o : xop) : acc :=
   | XIter items =>
       flag a (negb (forallb (item_model_ok d (a_ws a)) items)) (negb (forallb (item_spec_ok (a_ws a)) items)) 999
   | XIterSame before after =>
-      (* items that disappeared or changed: class 2 when every such key was moved by an earlier GC
-         (the lookup GC relies on answers with the re-inserted older version, so GC discards the
-         newer version's record and removes its file) *)
-      let gone := filter (fun x => negb (existsb (item_eqb x) after)) before in
-      let cls := match gone with
-                 | [] => 999
-                 | _ => if forallb (fun x => has (unhex (fst (fst (fst x)))) (a_moved a)) gone then 2 else 999
-                 end in
-      flag a false (negb (items_eqb before after)) cls
+      (* GC must not change what the iterator yields *)
+      flag a false (negb (items_eqb before after)) 999
   end.
 
 Definition replay (c : case) : acc :=
